@@ -195,7 +195,7 @@ package dispatch
 //@   ensures [no-silent-loss] count("aggrGroup).insert") >= 1 || called("errors.New")
 //@   ensures [inserted-or-published-or-reported] counttrue0("aggrGroup).insert") >= 1 || (counttrue0("CompareAndSwap") + count("LoadOrStore") - counttrue1("LoadOrStore") == 1) || called("Logger).Error")
 //@   at call errors.New assert [refused-only-at-the-limit] ret("MaxNumberOfAggregationGroups") > 0 && current >= ret("MaxNumberOfAggregationGroups")
-//@   at call newAggrGroup assert [existing-group-tried-first] ret1("sync.Map).Load") ==> called("aggrGroup).insert") && !ret("aggrGroup).insert")
+//@   at call newAggrGroup assert [existing-group-tried-first] ret1("sync.Map).Load$") ==> called("aggrGroup).insert") && !ret("aggrGroup).insert")
 //@   at call newAggrGroup assert [group-limit-respected] ret("MaxNumberOfAggregationGroups") <= 0 || current < ret("MaxNumberOfAggregationGroups")
 //@   at call sync.Map).CompareAndSwap assert [swap-only-a-group-that-was-seen] loaded
 //@   at call sync.Map).CompareAndSwap assert [swap-under-the-group-key] unbox(arg1, model.Fingerprint) == ret("LabelSet).Fingerprint")
